@@ -85,6 +85,7 @@ class ReaderInit(Contract):
     two_d = False
     preload = False
     irregular = False
+    legacy = False
     fault = False            # C17/C18: any range read may fail or come back short (a truncated file is one such environment)
     may_raise = ()
 
@@ -100,7 +101,8 @@ class ReaderInit(Contract):
         code = int(rate) if rate >= 1 else -int(1 / fr)
         grid = g.nT if self.two_d else mul(g.nI, g.nX)
         # Conf(F): the header words of a conforming file of geometry g (make_header contracts)
-        conf = [eq(hdr_u32(0), 2), eq(hdr_u32(4), g.nZ), eq(hdr_s32(40), code), eq(hdr_u32(44), b[0]), eq(hdr_u32(48), b[1]), eq(hdr_u32(52), b[2]),
+        bw = (0, 0, 0) if self.legacy else b          # files written before the blockshape words existed carry zeros there: 4 x 4 x (2048 / rate)
+        conf = [eq(hdr_u32(0), 2), eq(hdr_u32(4), g.nZ), eq(hdr_s32(40), code), eq(hdr_u32(44), bw[0]), eq(hdr_u32(48), bw[1]), eq(hdr_u32(52), bw[2]),
                 eq(hdr_u32(56), g.diskblocks), eq(hdr_u32(60), mul(4, grid)), ge(hdr_u32(64), 0), le(hdr_u32(64), 89), ge(hdr_u32(28), 1)]
         if self.two_d:
             # 2-D files exist since the trace-count word exists (written by versions after 0.2.1: encoding > enc(0.2.1) = 4099)
@@ -216,3 +218,7 @@ for _cfg in (ALL2[0], ALL2[2], [c_ for c_ in ALL2 if c_[1][1] == 16][0]):
 for _cfg, _pre, _2d in ((CFG_DEFAULT[3], False, False), (CFG_DEFAULT[3], True, False), (ALL2[0], False, True)):
     nm = f'{_cfg[0]}@{"x".join(map(str, _cfg[1]))}' + (',preload' if _pre else '') + (',2d' if _2d else '') + ',fault'
     fuc(RI + '__init__', props=['C17', 'C18'])(type('ReaderInitFault', (ReaderInit,), dict(cfg=_cfg, preload=_pre, two_d=_2d, fault=True, variant=nm)))
+
+for _cfg in [c_ for c_ in CFG_DEFAULT if c_[0] >= 1 and tuple(c_[1]) == (4, 4, 2048 // int(c_[0]))][:3]:
+    nm = f'{_cfg[0]}@{"x".join(map(str, _cfg[1]))},blockshape words zero (oldest files)'
+    fuc(RI + '__init__', props=['C02', 'C03'])(type('ReaderInitLegacy', (ReaderInit,), dict(cfg=_cfg, legacy=True, variant=nm)))
